@@ -486,6 +486,14 @@ class C05(Property):
             strs.add(p.replace("-", "\u2010"))
             t, sm = p.split("-")
             strs.add(sm + "-" + t)
+            # characters whose Unicode (not ASCII) case mapping yields ASCII letters of the name
+            for (frm, to) in (("S", "\u017f"), ("s", "\u017f"), ("SS", "\u00df"), ("ss", "\u00df"), ("I", "\u0131"), ("i", "\u0131"),
+                              ("I", "\u0130"), ("ST", "\ufb06"), ("st", "\ufb06"), ("ST", "\ufb05"), ("K", "\u212a")):
+                for q in (p, p.lower()):
+                    if frm in q:
+                        i = q.rindex(frm)
+                        strs.add(q[:i] + to + q[i + len(frm):])
+                        strs.add(q.replace(frm, to))
             k = rng.randrange(len(p))
             strs.add(p[:k] + p[k + 1:])
             strs.add(p[:k] + rng.choice(pieces) + p[k:])
